@@ -851,5 +851,12 @@ m("c13-negative-branch-keeps-clock", "C13", "x/coinomics/keeper/inflation.go",
   "\t\tk.SetPrevBlockTS(ctx, currentBlockTS.RoundInt())\n\n\t\treturn nil\n\t}\n", "\t\treturn nil\n\t}\n",
   "clock-advances-on-every-success", "a negative computed mint leaves the mint clock where it was")
 
+m("c01-tracer-derefs-nil-to", "C01", "x/evm/types/tracer.go",
+  "\t\tif msg.To() != nil {\n\t\t\tto = *msg.To()\n\t\t} else {\n\t\t\tto = crypto.CreateAddress(msg.From(), msg.Nonce())\n\t\t}\n", "\t\t_ = crypto.CreateAddress\n\t\tto = *msg.To()\n",
+  "To-dereferenced-under-guard", "the access-list tracer panics on contract creations")
+m("c17-elasticity-zero-accepted", "C17", "x/feemarket/types/params.go",
+  "\tif p.ElasticityMultiplier == 0 {\n\t\treturn fmt.Errorf(\"elasticity multiplier cannot be 0\")\n\t}\n\n", "",
+  "rejects-zero-ElasticityMultiplier", "a zero divisor passes parameter validation")
+
 json.dump(M, open('/verif/mutants.json', 'w'), indent=1)
 print(len(M), "mutants written")
